@@ -46,6 +46,11 @@ func ownsC12(class string) bool {
 	return strings.HasPrefix(class, "space/") || strings.HasPrefix(class, "full/") || ownsC05(class)
 }
 
+// in C05/C06/C17 runs a stuck tiny file is C12's business
+func notC12(owns func(string) bool) func(string) bool {
+	return func(c string) bool { return owns(c) && !strings.HasPrefix(c, "full/") }
+}
+
 // Shape is one scripted producer/consumer run.
 type Shape struct {
 	Sizes  []int `json:"sizes"`
@@ -400,24 +405,28 @@ func runQueueCheck(ctx *core.Ctx, pool *par.Pool, id string) {
 
 func runC12(ctx *core.Ctx, pool *par.Pool) {
 	quick := ctx.Quick()
-	cfgs := []QCfgSpec{{File: "A", Buffer: 5}}
+	cfgs := []QCfgSpec{{File: "A", Buffer: 5}, {File: "P17", Buffer: 5}, {File: "P16", Buffer: 5}, {File: "P21", Buffer: 5}}
 	depth := 5
 	ctx.SetBudget(110 * time.Second)
 	if !quick {
-		cfgs = []QCfgSpec{{File: "A", Buffer: 5}, {File: "A", Buffer: 6}, {File: "B", Buffer: 5}}
+		cfgs = []QCfgSpec{{File: "A", Buffer: 5}, {File: "A", Buffer: 6}, {File: "B", Buffer: 5}, {File: "P16", Buffer: 5}, {File: "P17", Buffer: 5}, {File: "P21", Buffer: 5}}
 		depth = 7
 		ctx.SetBudget(28 * time.Minute)
 	}
 	var total xstate.Stats
 	fills := 0
 	for _, c := range cfgs {
+		qcfg, _ := c.cfg()
+		u := qcfg.File.PageSize / 1024 // sizes scale with the page size
 		alphabet := []Q{
-			{K: queuedrv.QWrite, A: 900, B: queuedrv.ChunkOne},
-			{K: queuedrv.QWrite, A: 2900, B: queuedrv.ChunkPage},
-			{K: queuedrv.QWrite, A: 4900, B: queuedrv.ChunkOne},
+			{K: queuedrv.QWrite, A: 900 * u, B: queuedrv.ChunkOne},
+			{K: queuedrv.QWrite, A: 2900 * u, B: queuedrv.ChunkPage},
+			{K: queuedrv.QWrite, A: 4900 * u, B: queuedrv.ChunkOne},
 			{K: queuedrv.QFlush},
-			{K: queuedrv.QFill, A: 900},
-			{K: queuedrv.QFill, A: 4900},
+			{K: queuedrv.QFill, A: 300 * u},
+			{K: queuedrv.QFillFlush, A: 625 * u},
+			{K: queuedrv.QFill, A: 900 * u},
+			{K: queuedrv.QFill, A: 4900 * u},
 			{K: queuedrv.QFinish},
 			{K: queuedrv.QReadAll},
 			{K: queuedrv.QAck, A: 0},
@@ -445,14 +454,19 @@ func runC12(ctx *core.Ctx, pool *par.Pool) {
 	// fill-to-error / drain cycles as long scripted paths
 	cycles := 0
 	for _, c := range cfgs {
-		for _, size := range []int{100, 900, 2900, 4900} {
+		qcfg, _ := c.cfg()
+		for _, size := range []int{100, 300, 900, 2500, 2900, 4900, 300 * qcfg.File.PageSize / 1024, 900 * qcfg.File.PageSize / 1024} {
 			var path []Q
 			n := 6
 			if quick {
 				n = 4
 			}
 			for i := 0; i < n; i++ {
-				path = append(path, Q{K: queuedrv.QFill, A: size}, Q{K: queuedrv.QReadAll}, Q{K: queuedrv.QAck, A: 0}, Q{K: queuedrv.QFinish}, Q{K: queuedrv.QFlush},
+				fill := Q{K: queuedrv.QFill, A: size}
+				if i%2 == 1 {
+					fill.K = queuedrv.QFillFlush
+				}
+				path = append(path, fill, Q{K: queuedrv.QReadAll}, Q{K: queuedrv.QAck, A: 0}, Q{K: queuedrv.QFinish}, Q{K: queuedrv.QFlush},
 					Q{K: queuedrv.QWrite, A: size}, Q{K: queuedrv.QFlush}, Q{K: queuedrv.QReadAll}, Q{K: queuedrv.QAck, A: 0})
 			}
 			cycles++
@@ -532,7 +546,7 @@ func handleQCycle(raw []byte) interface{} {
 			env.Apply(op)
 			env.CheckSpace(op.String())
 			switch op.K {
-			case queuedrv.QFill:
+			case queuedrv.QFill, queuedrv.QFillFlush:
 				res.PerCycle = append(res.PerCycle, len(env.Events)-before)
 				if env.Full == fullBefore && len(env.Viol) == 0 {
 					env.Viol = append(env.Viol, pagedrv.Violation{Class: "full/never-full", Msg: "5000 events were accepted by a bounded file without an error"})
